@@ -194,59 +194,9 @@ def _check(acc, opens, ctx, v, v2, fold, top=False):
     return True
 
 
-SOLIDUS = '\\/'
-import re
-PAIR = re.compile(r'\\u([dD][89abAB][0-9a-fA-F]{2})\\u([dD][c-fC-F][0-9a-fA-F]{2})')
-ESC = re.compile(r'\\(?:u[0-9a-fA-F]{4}|.)', re.S)
-
-
-def neutralise(v):
-    """rewrite the two listed shapes away, leaving every other escape untouched"""
-    applied = set()
-
-    def repl(m):
-        t = m.group(0)
-        if t == SOLIDUS:
-            applied.add('c19.escaped_solidus')
-            return '/'
-        return t
-    # walk escapes left to right so that "\\/" (escaped backslash, then slash) is not touched
-    out = ESC.sub(repl, v)
-
-    def pair(m):
-        applied.add('c19.surrogate_pair_escape')
-        hi, lo = int(m.group(1), 16), int(m.group(2), 16)
-        return chr(0x10000 + ((hi - 0xd800) << 10) + (lo - 0xdc00))
-    # only pairs that start at an escape boundary
-    res = []
-    pos = 0
-    for m in ESC.finditer(out):
-        if m.start() < pos:
-            continue
-        pm = PAIR.match(out, m.start())
-        if pm:
-            res.append(out[pos:m.start()])
-            res.append(pair(pm))
-            pos = pm.end()
-    res.append(out[pos:])
-    return ''.join(res), applied
-
-
 def classify(v, v2, ctx=None, fold=None):
-    n1, a1 = neutralise(v)
-    n2, a2 = neutralise(v2)
-    applied = a1 | a2
-    if not applied or ctx is None:
-        return None
-    scratch = Acc()
-    try:
-        json.loads(n1)
-        json.loads(n2)
-    except ValueError:
-        return None
-    _check(scratch, (), ctx, n1, n2, fold)
-    if not scratch.failures:
-        return '+'.join(sorted(applied))
+    # no listed finding is attributed to this property any more (the two string-escape findings were
+    # repaired in d144726)
     return None
 
 
